@@ -4,7 +4,8 @@ import ast
 
 from ..project import AnalysisError, loc, norm_stmt
 from ..rules import fsa_rules as F
-from ..rules.common import u1
+from ..rules import cache_rules as CA
+from ..rules.common import u1, n1
 
 REL = F.FSA_REL
 ENTRIES = [(REL, "FSA." + m) for m in (
@@ -45,6 +46,8 @@ def run(ctx):
     F.rule_b2(ctx)
     F.rule_p1_fsa(ctx)
     rule_even(ctx)
+    n1(ctx, ["geometry_tools/automata/fsa.py"])
+    CA.rule_c2(ctx, "FSA")
     u1(ctx, ENTRIES, min_functions=12)
     ctx.r.assume("language equality for multiples, relabelling, pruning and "
                  "the shortest-path subgraph is not decided (needs values)")
